@@ -366,4 +366,50 @@ def kindOf : ChibiVerif.Spec.Literals.StrPrefix → StrKind
 def TokHasPrefix (t : StrTok) (p : ChibiVerif.Spec.Literals.StrPrefix) : Prop := getStringKind t = .ok (kindOf p) ∧ t.elem.size = p.elemSize
 
 
+-- ------------------------------------------------------------------ vocabulary of the whole-literal theorem
+
+/-- what a string-literal body is made of: source characters (written in UTF-8) and escape sequences
+    (`body` = the bytes after the backslash, `v` = the `int` that `read_escaped_char` returns for them) -/
+inductive SrcItem
+  | char (c : BitVec 32)
+  | esc (body : List Byte) (v : BitVec 32)
+
+def renderItem : SrcItem → List Byte
+  | .char c => encodeUtf8 c
+  | .esc body _ => 92#8 :: body
+
+def renderItems : List SrcItem → List Byte
+  | [] => []
+  | it :: its => renderItem it ++ renderItems its
+
+/-- code units a reader stores for one item -/
+def itemUnits (r : StrReader) : SrcItem → List Nat
+  | .char c =>
+    match r with
+    | .narrow => (encodeUtf8 c).map BitVec.toNat
+    | .utf16 => (utf16Units c).map BitVec.toNat
+    | .utf32 => [c.toNat]
+  | .esc _ v =>
+    match r with
+    | .narrow => [(v.setWidth 8).toNat]
+    | .utf16 => [(v.setWidth 16).toNat]
+    | .utf32 => [v.toNat]
+
+/-- a source character that can stand in a string literal: a code point up to U+10FFFF other than NUL, new-line,
+    `"` and `\` -/
+def CharOK (c : BitVec 32) : Prop := c.toNat < 0x110000 ∧ c.toNat ≠ 0 ∧ c.toNat ≠ 10 ∧ c.toNat ≠ 34 ∧ c.toNat ≠ 92
+
+/-- shape of an escape sequence body: one byte (not NUL / new-line) followed only by hexadecimal digits -/
+def EscShape (body : List Byte) : Prop :=
+  ∃ b tl, body = b :: tl ∧ b ≠ 0#8 ∧ b ≠ 10#8 ∧ ∀ x ∈ tl, isXDigit x = true
+
+/-- every item is well formed *in its context*: an escape is read back completely by `read_escaped_char` when followed by
+    the rest of the literal (this is where "an octal escape ends after three digits or at a non-octal digit" and "a
+    hexadecimal escape takes every following hexadecimal digit" enter) -/
+def ItemsOK (post : List Byte) : List SrcItem → Prop
+  | [] => True
+  | .char c :: its => CharOK c ∧ ItemsOK post its
+  | .esc body v :: its =>
+    EscShape body ∧ readEscapedChar (body ++ (renderItems its ++ 34#8 :: post)) = .ok (v, body.length) ∧ ItemsOK post its
+
 end ChibiVerif.Literals
